@@ -499,7 +499,18 @@ def all_ops_lines(tag, tier, seed, feats=("v3",), lengths=False):
 
 
 def gen_c10(tier, seed):
-    return all_ops_lines("c10", tier, seed, lengths=True)
+    out = all_ops_lines("c10", tier, seed, lengths=True)
+    # the 12.48in driver has its own transport (four chip selects, two D/C lines): every public call,
+    # LUT tables of every length class incl. empty, windows on and off the seams
+    big = [l.replace("id=c15-", "id=c10-big-") for l in gen_c15(tier, seed)["v3"]
+           if re.match(r"id=c15-(p|m|q|r)", l) or re.match(r"id=c15-w\d\b", l) or re.match(r"id=c15-f[0-3]\b", l)]
+    for which in ("c", "ww", "kw", "wk", "kk", "bd"):
+        for n in (0, 1, 41, 42, 43, 59, 60, 61):
+            big.append(f"id=c10-big-lut-{which}-{n} panel=epd12in48b_v2 delay=none sched=- raise=02,04,12 busylvl=0 fault=- scribble=0 "
+                       f"ops=reset;init,0000;lut,{which},r:3:{n};busy;lut,{which},z:{n}")
+    out["v3"] = out["v3"] + big
+    out.setdefault("stats", {})["big_panel_lines"] = len(big)
+    return out
 
 
 def gen_c18(tier, seed):
